@@ -561,15 +561,15 @@ func TestC15_Pair(t *testing.T) {
 	ev := evFor("C15")
 	ev.Rule(c15Rule)
 	ev.Assume("soundness is only attacked through the listed adversary families; outputs are judged 'not a shuffle' because plaintext points are random and distinct")
-	rcheck(t, 160, 5000, func(t *rapid.T) { c15Pair(t, ev) })
+	rcheck(t, 160, 25000, func(t *rapid.T) { c15Pair(t, ev) })
 }
 
 func TestC15_Forged(t *testing.T) {
 	ev := evFor("C15")
-	rcheck(t, 80, 2500, func(t *rapid.T) { c15Forged(t, ev) })
+	rcheck(t, 80, 12500, func(t *rapid.T) { c15Forged(t, ev) })
 }
 
 func TestC15_Others(t *testing.T) {
 	ev := evFor("C15")
-	rcheck(t, 120, 3500, func(t *rapid.T) { c15Others(t, ev) })
+	rcheck(t, 120, 17500, func(t *rapid.T) { c15Others(t, ev) })
 }
